@@ -74,11 +74,11 @@ class ModelsWorld(World):
         return {
             "world": cls.NAME, "mode": "random",
             "templates": rng.sample(tnames, rng.randint(1, 2)),
-            "replicas": rng.randint(2, 5),
+            "replicas": rng.randint(2, 5) if tier == "quick" else rng.randint(2, 7),
             "actors": rng.randint(1, 3),
-            "paths": rng.randint(1, 2),
-            "steps": rng.choice([12, 20, 30]),
-            "max_nv": rng.choice([1, 2, 3, 3]),
+            "paths": rng.randint(1, 2) if tier == "quick" else rng.randint(1, 3),
+            "steps": rng.choice([12, 20, 30]) if tier == "quick" else rng.choice([12, 20, 30, 50, 80]),
+            "max_nv": rng.choice([1, 2, 3, 3]) if tier == "quick" else rng.choice([1, 2, 3, 3, 4]),
             "horizon": rng.choice([1, 3, 6]),
             "fault_kinds": [k for k in FAULT_KINDS if rng.random() < 0.5] if faulty else [],
             "p_fault": rng.choice([0.2, 0.4]) if faulty else 0.0,
@@ -329,8 +329,10 @@ class ModelsWorld(World):
                 m = {"k": "steady"}
             elif x < 0.9:
                 m = {"k": "solve"}
-            elif x < 0.96:
+            elif x < 0.94:
                 m = {"k": "describe", "s": rng.choice(["", "model A", "renamed"])}
+            elif x < 0.985 and r.tname == "nonlin":
+                m = {"k": "change_logly", "logly": rng.random() < 0.5, "names": rng.sample(["y", "k", "c", "a"], rng.randint(1, 3))}
             else:
                 if not TEMPLATES[r.tname]["shocks"]:
                     return None
